@@ -1,17 +1,25 @@
-"""C18 helper (part of the C18 property module): the table of TensorLy entry-point configurations whose returned
-arrays are inspected for their dtype.  Every configuration is a dict
+"""C18 -- results stay in the numeric context (dtype) of the input.
+Correspondence: (a) the NEP-50 promotion / true-division / abs tables of Model/Dtype.v against the installed NumPy (measured on
+every run); (b) the dtype skeletons of Model/Dtype.v against the dtype of EVERY array returned by every configuration of the
+entry-point table below, for float32 / float64 (+ complex64 / complex128 where supported) data and none / same / bool / int64 /
+float64 masks.  Predicate (independent of the Coq model): every returned array has the floating dtype of the input data
+(documented exceptions: leverage scores float64, integer index outputs; real-valued-by-definition outputs of complex data).
+
+Table rows:
    name   : unique configuration name
    ep     : dotted public entry point
-   fam    : Gallina skeleton family (constructor of Model.Dtype.family) or None (not modelled: predicate only)
-   opts   : dict of skeleton options (rendered into the Gallina `cfg` record by C18.py)
-   mask   : None | 'same' | 'bool' | 'int' | 'f64' | 'f32'   (dtype class of a caller-supplied mask / auxiliary array)
+   fam    : Gallina skeleton family (constructor of Model.Dtype.family)
+   opts   : skeleton options (rendered into the Gallina `cfg` record)
+   mask   : None | 'same' | 'bool' | 'int' | 'f64'   (dtype class of a caller-supplied mask)
    dts    : data dtypes the configuration is run with
-   build  : D -> zero-argument callable returning the result structure (fresh arguments on every call)
-   real   : set of slot names that are real-valued by definition (norms, errors, singular values, metrics) - for complex
-            input these must have the real dtype of the same precision
-   exempt : {slot: reason} documented exceptions (leverage scores float64, integer index outputs are handled globally)
+   build  : D -> zero-argument callable (arguments bound as defaults, fresh on every build) returning the result structure
+   real   : slots that are real-valued by definition (norms, errors, singular values, metrics)
+   exempt : {slot: reason} documented exceptions
 """
+import random
 import numpy as np
+from harness import common as C
+
 
 F32, F64, C128 = "float32", "float64", "complex128"
 REALS = (F32, F64)
@@ -86,9 +94,9 @@ def table(tier="quick"):
     R = 2
     SH = (4, 3, 5)
 
-    def add(name, ep, build, fam=None, opts=None, mask=None, dts=REALS, real=(), exempt=None):
+    def add(name, ep, build, fam=None, opts=None, mask=None, dts=REALS, real=(), exempt=None, n=3, slotmap=None):
         T.append(dict(name=name, ep=ep, build=build, fam=fam, opts=opts or {}, mask=mask, dts=tuple(dts), real=set(real),
-                      exempt=exempt or {}))
+                      exempt=exempt or {}, n=n, slotmap=slotmap or {}))
 
     def cpinit(d):
         return np.ones(R, dtype=d.dt), [d.arr(s, R) for s in SH]
@@ -106,7 +114,7 @@ def table(tier="quick"):
         fam="FParafac", opts=dict(init="IRandom", normalize=True, linesearch=True), dts=ALL3, real={".weights"})
     add("parafac_linesearch_accepted", pf,
         lambda d: (lambda X=d.collinear(): dec.parafac(X, 3, n_iter_max=30, tol=0, linesearch=True, init="random", random_state=3, return_errors=True)),
-        fam="FParafac", opts=dict(init="IRandom", linesearch=True, errors=True), dts=ALL3, real=ERR)
+        fam="FParafac", opts=dict(init="IRandom", linesearch=True, errors=True), dts=ALL3, real=ERR, n=30)
     add("parafac_sparsity", pf, lambda d: (lambda X=d.arr(*SH): dec.parafac(X, R, n_iter_max=3, sparsity=0.1, init="random", random_state=1)),
         fam="FParafac", opts=dict(init="IRandom", sparsity=True))
     add("parafac_init_tuple", pf, lambda d: (lambda X=d.arr(*SH), i=cpinit(d): dec.parafac(X, R, n_iter_max=2, init=i)),
@@ -127,7 +135,8 @@ def table(tier="quick"):
         lambda d: (lambda X=d.arr(*SH): dec.randomised_parafac(X, R, n_samples=8, n_iter_max=3, random_state=1, return_errors=True)),
         fam="FRandParafac", real=ERR)
     add("sample_khatri_rao", "tensorly.decomposition.sample_khatri_rao",
-        lambda d: (lambda fs=cpinit(d)[1]: sample_khatri_rao(fs, 5, random_state=1, return_sampled_rows=True)), fam="FSampleKR")
+        lambda d: (lambda fs=cpinit(d)[1]: sample_khatri_rao(fs, 5, random_state=1, return_sampled_rows=True)), fam="FSampleKR",
+        exempt={"#1": "sampled row indices", "#2": "sampled row indices"})
     # ------------------------------------------------------------------ non-negative CP
     add("nn_parafac", "tensorly.decomposition.non_negative_parafac",
         lambda d: (lambda X=d.arr(*SH): dec.non_negative_parafac(X, R, n_iter_max=3, init="random", random_state=1, return_errors=True)),
@@ -187,7 +196,7 @@ def table(tier="quick"):
                 fam="FTucker", opts=dict(init="ISvd" if init == "svd" else "IRandom"), mask=mk)
     add("partial_tucker", "tensorly.decomposition.partial_tucker",
         lambda d: (lambda X=d.arr(*SH): dec.partial_tucker(X, [2, 2], modes=[0, 2], n_iter_max=3)), fam="FPartialTucker",
-        opts=dict(init="ISvd"), dts=ALL3, real={"#1"})
+        opts=dict(init="ISvd", errors=True), dts=ALL3, real={"#1"})
     add("nn_tucker", "tensorly.decomposition.non_negative_tucker",
         lambda d: (lambda X=d.arr(*SH): dec.non_negative_tucker(X, RK, n_iter_max=3, init="random", random_state=1, return_errors=True)),
         fam="FNNTucker", opts=dict(init="IRandom", errors=True), real=ERR)
@@ -305,9 +314,9 @@ def table(tier="quick"):
         lambda d: (lambda Mx=d.arr(6, 4): tl.svd_interface(Mx, n_eigenvecs=2, non_negative="nndsvda")), fam="FSvd", opts=dict(nonneg=True), real={"#1"})
     # ------------------------------------------------------------------ CP tensor utilities, tensor algebra
     add("cp_normalize", "tensorly.cp_tensor.cp_normalize", lambda d: (lambda i=cpinit(d): cpt.cp_normalize(i)), fam="FCpNormalize", dts=ALL3, real={".weights"})
-    add("cp_flip_sign", "tensorly.cp_tensor.cp_flip_sign", lambda d: (lambda i=cpinit(d): cpt.cp_flip_sign(i)), fam="FPure", dts=ALL3, real={".weights"})
+    add("cp_flip_sign", "tensorly.cp_tensor.cp_flip_sign", lambda d: (lambda i=cpinit(d): cpt.cp_flip_sign(i)), fam="FFlipSign", dts=ALL3, real={".weights"})
     add("cp_permute_factors", "tensorly.cp_tensor.cp_permute_factors",
-        lambda d: (lambda i=cpinit(d): cpt.cp_permute_factors(CPTensor(i), [CPTensor((i[0].copy(), [f[:, ::-1].copy() for f in i[1]]))])), fam="FPure",
+        lambda d: (lambda i=cpinit(d): cpt.cp_permute_factors(CPTensor(i), [CPTensor((i[0].copy(), [f[:, ::-1].copy() for f in i[1]]))])), fam="FIndexed",
         exempt={"#1": "permutation indices"})
     add("cp_to_tensor_mask", "tensorly.cp_tensor.cp_to_tensor", lambda d: (lambda i=cpinit(d), m=d.mask(SH, "same"): cpt.cp_to_tensor(i, mask=m)), fam="FPure", dts=ALL3)
     add("cp_to_unfolded_vec", "tensorly.cp_tensor.cp_to_vec", lambda d: (lambda i=cpinit(d): (cpt.cp_to_vec(i), cpt.cp_to_unfolded(i, 1))), fam="FPure", dts=ALL3)
@@ -338,7 +347,7 @@ def table(tier="quick"):
     add("random_parafac2", "tensorly.random.random_parafac2", lambda d: (lambda: tlr.random_parafac2([(4, 3), (5, 3)], 2, random_state=1, dtype=d.dt)), fam="FRandom")
     add("random_tensor", "tensorly.random.random_tensor", lambda d: (lambda: tlr.random_tensor((3, 4), random_state=1, dtype=d.dt)), fam="FRandom")
     # ------------------------------------------------------------------ metrics, preprocessing
-    add("congruence", "tensorly.metrics.congruence_coefficient", lambda d: (lambda i=cpinit(d): M.congruence_coefficient(i[1][0], i[1][0][:, ::-1].copy())), fam="FMetric",
+    add("congruence", "tensorly.metrics.congruence_coefficient", lambda d: (lambda i=cpinit(d): M.congruence_coefficient(i[1][0], i[1][0][:, ::-1].copy())), fam="FIndexed",
         exempt={"#1": "permutation indices"})
     add("correlation_index", "tensorly.metrics.correlation_index", lambda d: (lambda i=cpinit(d), j=cpinit(d): M.correlation_index(i[1], j[1])), fam="FMetric")
     add("regression_metrics", "tensorly.metrics.regression.MSE",
@@ -378,3 +387,287 @@ def arrays_of(o, path="", top=True):
     elif isinstance(o, dict):
         for k, x in o.items():
             yield from arrays_of(x, f"{path}.{k}", False)
+
+# ============================================================================= the check
+HEADER = """From Coq Require Import String Bool List. Import ListNotations. Open Scope string_scope.
+From TLV Require Import Model.Dtype Corr.C18."""
+
+COQ_DT = {"bool": "B", "int64": "I64", "float32": "F32", "float64": "F64", "complex64": "C64", "complex128": "C128"}
+NP_OF = {"B": np.bool_, "I64": np.int64, "F32": np.float32, "F64": np.float64, "C64": np.complex64, "C128": np.complex128}
+PY_OF = {"WI": 3, "WF": 1.5, "WC": 1.5 + 2j}
+ALL_DT = ["B", "I64", "F32", "F64", "C64", "C128", "WI", "WF", "WC"]
+PROX_COQ = {"none": "PNone", "nonneg": "PNonneg", "soft": "PL1", "l1": "PL1", "l2": "PL2", "l2sq": "PL2sq", "smooth": "PSmooth",
+            "simplex": "PSimplex", "softsparse": "PSoftSparse", "monotone": "PMonotone", "monotone_dec": "PMonotone",
+            "unimodal": "PUnimodal", "hardsparse": "PHardSparse", "normsparse": "PNormSparse", "normalize": "PNormalize",
+            "svt": "PSvt", "procrustes": "PProcrustes"}
+MASK_DT = {"same": None, "bool": "bool", "int": "int64", "f64": "float64", "f32": "float32"}
+
+
+def classify_value(v):
+    """dtype class of the result of a NumPy / Python operation"""
+    if isinstance(v, (np.ndarray, np.generic)):
+        return COQ_DT.get(str(v.dtype))
+    if isinstance(v, bool):
+        return None
+    if isinstance(v, int):
+        return "WI"
+    if isinstance(v, float):
+        return "WF"
+    if isinstance(v, complex):
+        return "WC"
+    return None
+
+
+def operands(k):
+    """representatives of a dtype class: (array, 0-d array, NumPy scalar) for strong classes, a Python scalar for weak ones"""
+    if k in PY_OF:
+        return [PY_OF[k]]
+    t = NP_OF[k]
+    return [np.ones(3, dtype=t), np.ones((), dtype=t), t(1)]
+
+
+def measure_tables():
+    """(kind, a, b|None, measured class or '?' when the representatives disagree) for the 81 + 81 + 9 entries"""
+    import operator
+    out = []
+    for a in ALL_DT:
+        for b in ALL_DT:
+            for kind, fns in (("CTab", (operator.mul, operator.add)), ("CDiv", (operator.truediv,))):
+                seen = set()
+                for x in operands(a):
+                    for y in operands(b):
+                        for fn in fns:
+                            if kind == "CTab" and a == "B" and b == "B" and fn is operator.add:
+                                pass  # bool + bool stays bool as well
+                            try:
+                                seen.add(classify_value(fn(x, y)))
+                            except Exception as e:  # noqa
+                                seen.add("!" + type(e).__name__)
+                out.append((kind, a, b, seen.pop() if len(seen) == 1 else "?" + repr(sorted(map(str, seen)))))
+        seen = set()
+        for x in operands(a):
+            seen.add(classify_value(abs(x)))
+        out.append(("CAbs", a, None, seen.pop() if len(seen) == 1 else "?" + repr(sorted(map(str, seen)))))
+    return out
+
+
+def cfg_lit(t):
+    o = t["opts"]
+    b = C.boolc
+    return ("(mkcfg {fam} {init} {mask} {errors} {normalize} {linesearch} {sparsity} {l2reg} {prox} {warm} {fallback} {alt})"
+            .format(fam=t["fam"], init=o.get("init", "IRandom"), mask=b(t["mask"] is not None), errors=b(o.get("errors", False)),
+                    normalize=b(o.get("normalize", False)), linesearch=b(o.get("linesearch", False)), sparsity=b(o.get("sparsity", False)),
+                    l2reg=b(o.get("l2reg", False)), prox=PROX_COQ[o.get("prox", "none")], warm=b(o.get("warm", False)),
+                    fallback=b(o.get("fallback", False)), alt=b(o.get("alg") == "active_set" or o.get("nonneg", False))))
+
+
+def model_slot(t, raw):
+    """name of the skeleton output an observed array belongs to"""
+    if raw in t["slotmap"]:
+        return t["slotmap"][raw]
+    if raw == "#1" and t["opts"].get("errors"):
+        return "errors"
+    if raw == "#1" and t["opts"].get("sparsity"):
+        return "sparse"
+    if "." in raw:
+        return raw.rsplit(".", 1)[1]
+    if raw.startswith("#"):
+        return "out" + raw[1:]
+    return "out0"
+
+
+def real_dtype(dt):
+    return {"complex64": "float32", "complex128": "float64"}.get(dt, dt)
+
+
+def expected_dtype(data_dt, mask_dt):
+    """the floating dtypes of the data the result was computed from: a floating mask of another precision is data as well,
+    so both the data's dtype (mask cast into the context) and the promotion of the two are in the numeric context"""
+    if mask_dt is not None and np.dtype(mask_dt).kind in "fc":
+        return sorted({data_dt, str(np.result_type(np.dtype(data_dt), np.dtype(mask_dt)))})
+    return [data_dt]
+
+
+def dtype_predicate(t, data_dt, mask_dt, obs):
+    """C18 on the implementation's output: every array has the floating dtype of the input data.
+    obs: list of (raw slot, dtype string).  Returns list of (slot, observed, expected) failures."""
+    exp = expected_dtype(data_dt, mask_dt)
+    bad = []
+    for slot, dt in obs:
+        if slot in t["exempt"]:
+            continue
+        if dt in exp:
+            continue
+        if slot in t["real"] and dt in [real_dtype(e) for e in exp]:
+            continue
+        bad.append((slot, dt, "/".join(exp)))
+    return bad
+
+
+def run_config(t, data_dt, seed=0, verbose_capture=False):
+    """executes one configuration; returns (status, observations [(raw slot, dtype)], info)"""
+    import io, contextlib
+    d = D(data_dt, seed)
+    C.reset_backends()
+    thunk = t["build"](d)
+    info = {}
+    defaults = thunk.__defaults__ or ()
+    names = thunk.__code__.co_varnames[:len(defaults)]
+    info["arg_dtypes"] = {n: sorted({str(a.dtype) for _, a in arrays_of(v)}) for n, v in zip(names, defaults)}
+    if t["fam"] == "FActiveSet" and "x" in names:
+        a = dict(zip(names, defaults))
+        UtU = a["UtU"] if "UtU" in a else a["a"][1]
+        x = np.asarray(a["x"]).reshape(-1)
+        ps = x > 0
+        blk = np.asarray(UtU, dtype=np.float64)[ps, :][:, ps]
+        info["x_given"] = True
+        info["passive_block_singular"] = bool(blk.size and np.linalg.matrix_rank(blk) < blk.shape[0])
+    buf = io.StringIO()
+    with contextlib.redirect_stdout(buf):
+        st, v = C.call_impl(thunk, timeout=60)
+    C.reset_backends()
+    if st != "ok":
+        return st, [], dict(info, error=v)
+    obs = sorted({(s, str(a.dtype)) for s, a in arrays_of(v)})
+    info["n_arrays"] = sum(1 for _ in arrays_of(v))
+    return "ok", obs, info
+
+
+def linesearch_probe(dt):
+    """non-vacuity of the line-search configuration: count the accepted jumps (parafac prints them when verbose)"""
+    import io, contextlib
+    from tensorly import decomposition as dec
+    d = D(dt)
+    X = d.collinear()
+    buf = io.StringIO()
+    with contextlib.redirect_stdout(buf):
+        st, v = C.call_impl(lambda: dec.parafac(X, 3, n_iter_max=30, tol=0, linesearch=True, init="random", random_state=3, verbose=1), timeout=60)
+    return buf.getvalue().count("Accepted line search jump") if st == "ok" else -1
+
+
+# ---- known-finding classifiers (predicates on the failing input)
+def clf_mask(f):
+    i = f["inputs"]
+    m = i.get("mask_dtype")
+    return m is not None and np.dtype(m).kind in "biu" and i["dtype"] in ("float32", "complex64") \
+        and all(o == "float64" for _, o, _ in i["failures"])
+
+
+def clf_active_set(f):
+    i = f["inputs"]
+    return bool(i.get("x_given")) and bool(i.get("passive_block_singular")) and i["dtype"] == "float32" \
+        and all(o == "float64" for _, o, _ in i["failures"])
+
+
+CLASSIFIERS = {"mask_bool_or_int_with_single_precision_data": clf_mask,
+               "warm_start_with_singular_passive_block_float32": clf_active_set}
+
+
+def dtypes_for(t, tier):
+    dts = list(t["dts"])
+    if "complex128" in dts:
+        dts.append("complex64")
+    return dts
+
+
+def run(chk):
+    rng = random.Random(chk.seed)
+    chk.build_proofs()
+    C.reset_backends()
+    cases, meta = [], []
+    # ---- 1. the promotion tables, measured now
+    tab = measure_tables()
+    for kind, a, b, r in tab:
+        cid = len(cases)
+        rl = r if r in ALL_DT else None
+        if rl is None:
+            # NumPy returned something outside the model's domain: the table cannot be right
+            chk.disagreement("corr:C18 promotion table (Model/Dtype.v vs installed NumPy)", {"kind": kind, "a": a, "b": b, "measured": r})
+            continue
+        cases.append(f"({kind} {cid}%nat {a} {b} {rl})" if b is not None else f"({kind} {cid}%nat {a} {rl})")
+        meta.append(("table", kind, a, b, r))
+        chk.count(key=("table", kind, a, b), nontrivial=True)
+    chk.hist("stream", "promotion-table entries")
+    # ---- 2. entry points
+    T = table(chk.tier)
+    seeds = [0] if chk.tier == "quick" else [0, 1 + rng.randrange(1000), 1 + rng.randrange(1000)]
+    n_fail_known = 0
+    for t in T:
+        for data_dt in dtypes_for(t, chk.tier):
+            for seed in seeds:
+                st, obs, info = run_config(t, data_dt, seed)
+                mask_dt = None if t["mask"] is None else (MASK_DT[t["mask"]] or data_dt)
+                key = (t["name"], data_dt, t["mask"])
+                chk.count(key=key, nontrivial=True)
+                chk.hist("family", t["fam"]); chk.hist("data dtype", data_dt); chk.hist("mask", str(t["mask"]))
+                chk.hist("outcome", st)
+                inputs = {"config": t["name"], "dtype": data_dt, "seed": seed, "mask_dtype": mask_dt, "arg_dtypes": info.get("arg_dtypes")}
+                for k in ("x_given", "passive_block_singular"):
+                    if k in info:
+                        inputs[k] = info[k]
+                if st != "ok":
+                    # every configuration of the table is a supported call: a raise is reported, never dropped
+                    chk.finding(t["ep"], inputs, f"configuration raised: {info.get('error')}", "C18_runs", observed=info.get("error"))
+                    continue
+                if len(chk.cov["samples"]) < 4 and (t["mask"] == "bool" or t["name"] in ("prox_simplex", "tucker")) and data_dt == "float32":
+                    chk.sample({"config": t["name"], "entry_point": t["ep"], "data_dtype": data_dt, "mask_dtype": mask_dt, "observed": obs})
+                bad = dtype_predicate(t, data_dt, mask_dt, obs)
+                if bad:
+                    inputs["failures"] = bad
+                    chk.finding(t["ep"], inputs, "returned arrays leave the numeric context of the input: " +
+                                ", ".join(f"{s or 'result'}: {o} (expected {e})" for s, o, e in bad), "C18_dtype_of_every_returned_array",
+                                observed={s: o for s, o, _ in bad}, expected=expected_dtype(data_dt, mask_dt))
+                if t["fam"]:
+                    cid = len(cases)
+                    ol = "[" + "; ".join(f'("{model_slot(t, s)}", {("Some " + COQ_DT[dt]) if dt in COQ_DT else "None"})' for s, dt in obs) + "]"
+                    cases.append(f"(CEp {cid}%nat {cfg_lit(t)} {COQ_DT[data_dt]} {COQ_DT[mask_dt or data_dt]} {int(t['n'])}%nat {ol})")
+                    meta.append(("ep", t, data_dt, mask_dt, seed, obs, bool(bad)))
+    # ---- 3. non-vacuity of the line-search stream
+    acc = {dt: linesearch_probe(dt) for dt in ("float32", "float64", "complex128")}
+    chk.notes.append(f"parafac(linesearch=True) on near-collinear data, 30 sweeps: accepted line-search jumps per dtype = {acc}")
+    if min(acc.values()) <= 0:
+        chk.broken.append({"what": "C18 harness: the line-search configuration no longer accepts any jump (stream is vacuous)", "detail": acc})
+    failing, n_eval, broken = C.run_case_shards("C18", HEADER, "case", cases, shard=300)
+    chk.checker_cmds.append("coqc (vm_compute) on generated build/cases/C18/*.v: Corr.C18.failing")
+    chk.cov["traces_validated_against_impl"] = n_eval
+    chk.cov["exhaustive"] = False
+    chk.cov["rule"] = ("(a) all 81 promotion + 81 true-division + 9 abs table entries over {bool,int64,f32,f64,c64,c128,weak int/float/complex}, each measured on "
+                       "arrays, 0-d arrays and NumPy scalars (strong) / Python scalars (weak) with * and + (exhaustive for the table); (b) every configuration of the "
+                       f"{len(T)}-row entry-point table x data dtype in {{float32,float64}} (+complex64/complex128 where the entry point supports complex data) x "
+                       "mask dtype in {none, same, bool, int64, float64} where a mask is accepted (quick: one data seed; thorough: three); every array and NumPy "
+                       "scalar of the returned structure is inspected; distinct key = (configuration, data dtype, mask kind); all are non-trivial")
+    for b in broken:
+        chk.broken.append({"what": "correspondence corr:C18 shard not evaluated", "detail": b})
+    for i in sorted(failing):
+        m = meta[i]
+        if m[0] == "table":
+            chk.disagreement("corr:C18 promotion table (Model/Dtype.v vs installed NumPy)", {"kind": m[1], "a": m[2], "b": m[3], "measured": m[4]})
+        else:
+            _, t, data_dt, mask_dt, seed, obs, bad = m
+            chk.disagreement("corr:C18 skeleton (Model/Dtype.v) vs " + t["ep"],
+                             {"config": t["name"], "dtype": data_dt, "mask_dtype": mask_dt, "seed": seed, "observed": obs, "cfg": cfg_lit(t)})
+    chk.assumptions = ["the skeletons abstract the data flow of the entry points (which value is combined with which); they are tied to the code only through the "
+                       "observed output dtypes of this run's configurations",
+                       "a floating-point mask of another precision than the data counts as input data (expected dtype = their promotion)",
+                       "real-valued-by-definition outputs (errors, norms, singular values, |weights|) of complex input are expected in the real type of the same precision"]
+    chk.trusted = ["NumPy's dtype attribute of the returned arrays", "table of entry-point configurations (harness/props/C18.py) as the universe of 'public entry points'"]
+    return chk.finish(CLASSIFIERS)
+
+
+def replay(payload):
+    """re-run a stored failing configuration against the current implementation; 1 = still failing"""
+    if payload.get("kind") != "failing-input":
+        print("replay file names a broken theorem/correspondence, not an input:", payload.get("theorem_or_correspondence"))
+        return 1
+    inp = payload["inputs"]
+    for t in table("thorough"):
+        if t["name"] == inp["config"]:
+            st, obs, info = run_config(t, inp["dtype"], inp.get("seed", 0))
+            if st != "ok":
+                print("replay:", t["name"], inp["dtype"], "->", st, info.get("error"))
+                return 1
+            bad = dtype_predicate(t, inp["dtype"], inp.get("mask_dtype"), obs)
+            print("replay:", t["name"], inp["dtype"], "mask", inp.get("mask_dtype"), "->", bad or "holds", "| observed", obs)
+            return 1 if bad else 0
+    print("replay: configuration not found in the table")
+    return 1
